@@ -5,8 +5,8 @@
 # (/tmp/wt/verif-<commit>) has its harness pointed at it. Results go to stdout (tab separated).
 set -u
 COMMIT="$1"; TIER="$2"; shift; shift
-MUT=/tmp/wt/mutrepo
-SNAP=/tmp/wt/verif-$COMMIT
+MUT=${MUT:-/tmp/wt/mutrepo}
+SNAP=${SNAP:-/tmp/wt/verif-$COMMIT}
 [ -d "$MUT" ] || { git -C /repo worktree add -q --detach "$MUT" HEAD && cp /repo/Cargo.lock "$MUT/"; }
 git -C "$MUT" checkout -q --detach "$(git -C /repo rev-parse HEAD)"; git -C "$MUT" checkout -q -- .
 if [ ! -d "$SNAP" ]; then
